@@ -63,13 +63,50 @@ func (r *PreparedStatementItem) QuerySettings() []*encryptor.QueryDataItem {
 // PreparedStatementRegistry is a MySQL PreparedStatementRegistry.
 type PreparedStatementRegistry struct {
 	statements map[string]PreparedStatementItem
+	// types of the parameters (2 bytes each) as the client sent them with the last execution that carried them
+	paramTypes map[string][]byte
 }
 
 // NewPreparedStatementRegistry makes a new empty prepared statement registry.
 func NewPreparedStatementRegistry() *PreparedStatementRegistry {
 	return &PreparedStatementRegistry{
 		statements: make(map[string]PreparedStatementItem),
+		paramTypes: make(map[string][]byte),
 	}
+}
+
+// ErrNoParameterTypes is returned for an execution without parameter types of a statement whose types are not known
+var ErrNoParameterTypes = errors.New("statement executed without parameter types before any execution with types")
+
+// RestoreParameterTypes remembers the parameter types of a COM_STMT_EXECUTE that carries them
+// (new_params_bind_flag = 1) and puts them back into one that does not: clients send the types with the first
+// execution only, but the values cannot be parsed (and the types of encrypted values not changed) without them.
+// It returns true if the packet was completed.
+func (r *PreparedStatementRegistry) RestoreParameterTypes(packet *Packet, stmtID string, paramsNum int) (bool, error) {
+	data := packet.GetData()
+	// packet header, stmt-id, flags, iteration-count, NULL-bitmap
+	flagPos := 10 + (paramsNum+7)/8
+	if len(data) <= flagPos {
+		return false, base_mysql.ErrMalformPacket
+	}
+	if data[flagPos] == 1 {
+		if len(data) < flagPos+1+2*paramsNum {
+			return false, base_mysql.ErrMalformPacket
+		}
+		r.paramTypes[stmtID] = append([]byte(nil), data[flagPos+1:flagPos+1+2*paramsNum]...)
+		return false, nil
+	}
+	types, ok := r.paramTypes[stmtID]
+	if !ok || len(types) != 2*paramsNum {
+		return false, ErrNoParameterTypes
+	}
+	newData := make([]byte, 0, len(data)+len(types))
+	newData = append(newData, data[:flagPos]...)
+	newData = append(newData, 1)
+	newData = append(newData, types...)
+	newData = append(newData, data[flagPos+1:]...)
+	packet.SetData(newData)
+	return true, nil
 }
 
 // StatementByID returns a prepared statement from the registry by its id, if it exists.
@@ -82,6 +119,7 @@ func (r *PreparedStatementRegistry) StatementByID(stmtID string) (PreparedStatem
 
 // DeleteStatementByID returns a prepared statement from the registry by its id, if it exists.
 func (r *PreparedStatementRegistry) DeleteStatementByID(stmtID string) bool {
+	delete(r.paramTypes, stmtID)
 	if _, ok := r.statements[stmtID]; ok {
 		delete(r.statements, stmtID)
 		return ok
